@@ -61,7 +61,8 @@ def body(ck, F, cfg):
             if "ark_serialize::" not in cp:
                 continue
             last = cp.split("::")[-1]
-            if (p.startswith("<merlin::Transcript as transcript::TranscriptProtocol") or p.startswith("transcript::")) and last == "serialize_uncompressed":
+            if last == "serialize_uncompressed" and not ("r1cs::proof" in p or "inner_product_proof" in p):
+                # positive control: the matcher sees the (legitimate) uncompressed encodings used for hashing, wherever the helper lives
                 ctrl += 1
             if "unchecked" in last or (last.endswith("_uncompressed") and ("r1cs::proof" in p or "inner_product_proof" in p)):
                 bad.append((p, last))
